@@ -3,6 +3,7 @@ package main
 import (
 	"fmt"
 	"os"
+	"runtime"
 	"sync"
 
 	"verifharness/internal/gitcli"
@@ -111,7 +112,7 @@ func c17(args []string) error {
 	var mu sync.Mutex
 	workers := 4
 	if rep.Thorough() {
-		workers = 8
+		workers = 6
 	}
 	seed := uint64(rep.Seed())
 	var firstErr error
@@ -124,6 +125,11 @@ func c17(args []string) error {
 			for hi, h := range hs {
 				if hi%workers != wk {
 					continue
+				}
+				// file descriptors that go-git leaves to finalizers (files of directories already removed)
+				// pile up when several workers replay thousands of histories per second: collect regularly
+				if (hi/workers)%50 == 0 {
+					runtime.GC()
 				}
 				for bi, be := range bs {
 					// memory + plain filesystem always; the option variants on a seeded half of the histories
